@@ -433,6 +433,7 @@ def cmp(op, impl_out, model_out):
         # before "This output does not provide text output"); the run must end in an error message either way
         if st.startswith("exit1:") and not st.startswith("exit1-nomessage") and "cls" not in i:
             return True
+    if m[0] == "ERR" and m[1].startswith("inrun:"):
         # an error guard at the start of the selected method: the output object was set up as predicted and the run
         # ended in an error message
         if len(m) < 7 or "cls" not in i:
